@@ -8,6 +8,11 @@ NOTE = ("Oracle = /verif/spec/*.tla written from RFC 8949/9052/9053/9338 and the
 C = {
  "C05": ("TLC explores the structural-mutation state space of valid COSE messages exhaustively (single and, per tier, double mutations at every position of the CBOR tree, all kinds), checks spec-level invariants (bases conforming, Conforming => WellFormed, kinds disjoint) and emits every case; each byte string is offered to all five real decoders; TLC validates every recorded event: accepted => WellFormedCose(kind, bytes) decided by the byte-level TLA+ parser and the RFC 9052 3.1 rules.", "6 C05"),
  "C13": ("TLC enumerates the header grid (labels x value kinds x bucket x 10 Go integer spellings, pair cells for IV/Partial IV within and across buckets, crit x present label, duplicate labels under two Go types) embedded in every structure with headers, and derives each cell's wire image; the real encoder runs on the in-memory value and the real decoder on the image; TLC validates every event: produced/accepted => rules hold, and encode verdict = decode verdict for every in-model cell (hence independent of spelling).", "6 C13"),
+ "C08": ("TLC enumerates multi-entry in-memory header buckets (subsets of a pool whose bytewise key order disagrees with insertion order, mixed Go integer spellings, nested maps/arrays, countersignature values) plus the C13 grid, embedded in every structure, checks on the spec that the canonical image is deterministic CBOR, and emits each with its canonical image; the real encoder runs 6 times in each of 2 processes; TLC validates every event: identical bytes, equal to the canonical image, deterministic (also inside protected bstrs), decodable, decoded value has the same image.", "6 C08"),
+ "C07": ("TLC enumerates conforming messages of every kind (attached/detached, with/without alg+external data, 1-2 signers, standalone signature, nested countersignatures single/list, protected-size classes 23/24/255/256) and every encoder choice inside them (each head at each legal width, map key orders, h''/h'a0', bulk variants, pairs), checks on the spec that choices stay Conforming, and derives each signer's Sig_structure from the wire bytes; the harness signs it with the Go standard library (independent implementation), installs the signature, and runs the real decoder and built-in verifier; TLC validates: Conforming => accepted, and verifies when every signer is valid.", "6 C07"),
+ "C02": ("Same generated space as C07; a recording verifier captures the exact bytes the library hands to Verifier.Verify for every signer; TLC validates each recorded call against Sig1Structure/SigStructure computed by the byte-level TLA+ parser from the received wire bytes (protected bstr as on the wire with only its length prefix normalised, nil/empty external equal, tag and unprotected bucket contribute nothing) and against the signature bytes on the wire.", "6 C02"),
+ "C03": ("TLC enumerates validly signed messages of every kind and every single (thorough: double) edit: structural mutation at every tree position, whole-message edits, signature-length changes and renderings, in-place signature corruption, signatures made over other external data / payload / context / signer / key, verification under other external data; cryptoValid is computed by the standard library over the Sig_structure the specification derives from the received bytes (cross-checked by TLC); TLC validates verify = nil <=> count matches and every signer is valid and agrees on alg.", "6 C03"),
+ "C09": ("Same generated space as C07; each accepted wire message is decoded and re-encoded untouched, twice, and after discarding the retained raw bytes in every layer; TLC validates the output against ReencodePrediction (buckets of every layer byte-identical; only payload/signature/signatures-array heads shortest), identity for deterministic input, signatures still verifying, and the cleared form being a fixed point of decode/encode.", "6 C09"),
 }
 BUILT = [k for k in sorted(C)]
 checks = []
